@@ -41,10 +41,10 @@ def _frame_positions(frame, L):
     if frame is None or frame is Ellipsis:
         return list(range(L))
     if isinstance(frame, slice):
-        return list(range(frame.start or 0, frame.stop, frame.step or 1))
+        return list(range(L))[frame]
     if isinstance(frame, int):
-        return [frame]
-    return [int(i) for i in frame]
+        return [frame % L]
+    return [int(i) % L for i in frame]           # lists / arrays / ranges: numpy fancy indexing, negative indices count from the end
 
 
 def _pairs(cfg, L):
@@ -407,6 +407,21 @@ def frames(draw, L, allow_none=True, min_len=1):
         return None
     if kind == 'int' and min_len <= 1:
         return draw(st.integers(0, L - 1))
+    if kind == 'range' and min_len <= 1 and draw(st.integers(0, 3)) == 0:
+        # ranges that cross zero or run downwards: range(-3, 0) = the last three samples, range(3, -1, -1) = samples 3, 2, 1, 0
+        style = draw(st.sampled_from(['tail', 'down', 'down_to_zero', 'cross']))
+        k = draw(st.integers(1, min(L, 4)))
+        if style == 'tail':
+            return range(-k, 0)
+        if style == 'down':
+            hi = draw(st.integers(k, L - 1)) if L - 1 >= k else L - 1
+            return range(hi, max(hi - k, 0), -1) if hi - k >= 0 else range(hi, -1, -1)
+        if style == 'down_to_zero':
+            return range(min(k, L - 1), -1, -1)
+        return range(-min(k, L), min(2, L))          # e.g. range(-2, 2): last two samples then the first two
+    if kind in ('list', 'ndarray') and draw(st.integers(0, 3)) == 0:
+        lst = draw(st.lists(st.integers(-L, L - 1), min_size=min_len, max_size=max(min_len, min(L, 6))))
+        return lst if kind != 'ndarray' else np.array(lst, dtype='int64')
     if kind in ('slice', 'range'):
         a = draw(st.integers(0, L - min_len))
         step = draw(st.sampled_from([1, 1, 2, 3]))
